@@ -955,6 +955,15 @@ impl Model {
                     Some(_) => rejected.push(k),
                 }
                 r.needs_reannounce = false;
+            } else if r.conf.is_none()
+                && !completed.contains(&k)
+                && matches!(first_send_verdict(submitted, &dtxid), Some(v) if !matches!(v, Verdict::Ok | Verdict::Transport | Verdict::Err(RPC_VERIFY_ALREADY_IN_CHAIN)))
+            {
+                // The tower re-announced the dispute of an unconfirmed response (justified after a reorg, see C02) and the
+                // node refused it: the dispute cannot confirm on this chain any more, nor can the penalty. "A tracker
+                // whose re-submission the node rejects is dropped".
+                self.probe("dispute_rejected_on_reannouncement");
+                rejected.push(k);
             } else if r.conf.is_none() && !completed.contains(&k) && !rejected.contains(&k) {
                 // Unconfirmed: a re-submission in this block that the node refuses drops the tracker.
                 let actual = first_send_verdict(submitted, &ptxid);
